@@ -10,7 +10,15 @@ PROP = dict(
         "modelled as a counter incremented at the rendezvous (only uniqueness of ids matters)",
         "expressions are abstracted as total functions state -> value | error; callbacks as scripts (return nil / error / panic / "
         "call own cancel) that always return unless they call cancel; onclose only records",
-        "Go's unspecified map iteration order is modelled by an arbitrary enumeration code per message (permBy), the theorems hold for all codes",
+        "Go's unspecified map iteration order is modelled by an arbitrary enumeration code per message (permBy): every code is a "
+        "permutation and every permutation has a code (both proved), the theorems hold for all codes",
+        "concurrency (Arrai/C17/Conc.lean, part 7 of the proofs): assumed about Go - the engine's channels are unbuffered, so a call takes "
+        "effect at one rendezvous at which the loop's select accepts the message of exactly one blocked caller (arbitrary choice = the "
+        "schedule), and the loop is one goroutine, so the arm (including the reply to Update) completes before the next acceptance; proved "
+        "in Lean from that: every schedule of any clients yields Impl.run of one history that is an interleaving of the clients' calls in "
+        "program order, and each client's replies / observation handles are functions of that history",
+        "the cancel function's busy/cancelled marking (atomic state of the watcher) is modelled by the callback oracle `reenter` = cancel "
+        "is called while that watcher's callback runs, by the callback itself or by another goroutine (the code cannot tell them apart)",
     ],
     assumptions=[
         "callbacks that block on something outside the engine (e.g. serve_grpc.go's `retch <- err` with no receiver) are outside the model",
@@ -18,14 +26,16 @@ PROP = dict(
         "correspondence run: states are {} or small naturals; 7 expression shapes; 1-4 clients, 3-25 operations; thorough adds "
         "concurrently issued histories of a restricted class for which only interleaving-independent facts are compared",
     ],
-    level_text="Proof: Lean theorems over all finite message histories, all callback oracles and all map enumeration orders for the "
-               "transliterated (repaired) engine loop: never crashes, never wedges, every Update gets exactly one reply before anything "
-               "else happens, effects in acknowledgement order, per-observer delivery closed form, isolation, at most one onclose, "
-               "refinement of the sequential specification; plus machine-checked witnesses that the unrepaired loop deadlocks / crashes. "
-               "Partial (hypothesis: no callback calls its own cancel function) - known finding KF-engine-reentrant-cancel. Tied to "
-               "engine/engine.go by running the real engine on generated histories on every run.",
+    level_text="Proof: Lean theorems, all at full strength, over all finite message histories, all callback oracles (return nil / error / "
+               "panic / cancel called during the callback) and all map enumeration orders for the transliterated repaired engine loop: "
+               "never crashes, never wedges, every Update gets exactly one reply before anything else happens, effects in acknowledgement "
+               "order, per-observer delivery closed form, isolation, onclose exactly once, refinement of the sequential specification; every "
+               "schedule of concurrent clients is such a history (merge theorems); machine-checked witnesses that the loop before each "
+               "repair deadlocks / crashes. The model includes the re-entrant-cancel repair (commit d1370e0 of branch c17-reenter); on a tree "
+               "without it the re-entrant cases are reported as KF-engine-reentrant-cancel. Tied to engine/engine.go by running the real "
+               "engine on generated histories on every run.",
     design_ref="DESIGN.md section 6, C17",
     watch=["engine.Start", "engine.Engine.Stop", "engine.Engine.Hangup", "engine.Engine.Update", "engine.Engine.Observe",
-           "engine.watcher.update", "engine.watcher.close"],
+           "engine.watcher.update", "engine.watcher.send", "engine.watcher.close"],
     env={"HARNESS_TIMEOUT_MS": "30000"},
 )
